@@ -33,7 +33,7 @@ Definition utf8_next (l : list Z) : option (list Z * list Z) :=
   end.
 
 Definition is_replacement (c : list Z) : bool :=
-  match c with [239; 191; 189] => true | _ => false end.
+  match c with [x; y; z] => (x =? 239) && (y =? 191) && (z =? 189) | _ => false end.
 
 Fixpoint utf8_take_f (fuel : nat) (k : nat) (l : list Z) : option (list Z) :=
   match fuel with
